@@ -1,0 +1,29 @@
+//go:build verif
+
+// Contracts checked by /verif/govc (comment-only file; adds no code).
+
+package verifier
+
+//@ import pkix "crypto/x509/pkix"
+
+//@ pure func okRes(r *revocationresult.CertRevocationResult) bool = r.Result == revocationresult.ResultOK || r.Result == revocationresult.ResultNonRevokable
+//@ pure func revokedRes(r *revocationresult.CertRevocationResult) bool = r.Result == revocationresult.ResultRevoked
+//@ pure func subjectString(c *x509.Certificate) string = nameString(c.Subject)
+
+//@ func revocationFinalResult
+//@ props C05 C06
+//@ requires len(certResults) <= len(certChain)
+//@ requires forall(j, 0, len(certResults), certResults[j] != nil && certChain[j] != nil)
+//@ requires logger != nil
+//@ requires forall(j, 0, len(certResults), forall(s, 0, len(certResults[j].ServerResults), certResults[j].ServerResults[s] != nil))
+//@ ensures[C05.ok]      (result == revocationresult.ResultOK) == forall(j, 0, len(certResults), okRes(certResults[j]))
+//@ ensures[C05.revoked] (result == revocationresult.ResultRevoked) == exists(j, 0, len(certResults), revokedRes(certResults[j]))
+//@ ensures[C05.names]   result == revocationresult.ResultRevoked ==> exists(j, 0, len(certResults), revokedRes(certResults[j]) && result1 == subjectString(certChain[j]))
+//@ ensures[C05.problem] result != revocationresult.ResultOK && result != revocationresult.ResultRevoked ==> exists(j, 0, len(certResults), !okRes(certResults[j]) && result == certResults[j].Result && result1 == subjectString(certChain[j]))
+//@ loop 1 invariant -1 <= i && i < len(certResults) && 0 <= numOKResults && numOKResults <= len(certResults)-1-i
+//@ loop 1 invariant (numOKResults == len(certResults)-1-i) == forall(j, i+1, len(certResults), okRes(certResults[j]))
+//@ loop 1 invariant revokedFound == exists(j, i+1, len(certResults), revokedRes(certResults[j]))
+//@ loop 1 invariant revokedFound ==> exists(j, i+1, len(certResults), revokedRes(certResults[j]) && revokedCertSubject == subjectString(certChain[j]))
+//@ loop 1 invariant numOKResults < len(certResults)-1-i ==> exists(j, i+1, len(certResults), !okRes(certResults[j]) && finalResult == certResults[j].Result && problematicCertSubject == subjectString(certChain[j]))
+//@ loop 1 invariant numOKResults == len(certResults)-1-i ==> finalResult == revocationresult.ResultUnknown
+//@ loop 1 decreases i + 1
